@@ -319,8 +319,15 @@ pub fn run_c02(rep: &mut Report, tier: &str, seed: u64) -> Result<(), String> {
         "svgdx-mode documents (4 of 5 with a root <svg>) routing strings over an XML-hostile alphabet (& < > quotes, --, ]]>, U+0085, U+2028, astral characters, literal reference text) into every sink: attribute values, class, text attribute, element content, CDATA content, _ and __ comments, author <style>/<title>, mixed-content tails, config background / font-family / svg-style, under random debug / metadata / theme / auto-style configurations; the output must be accepted by the independent expat parser (no duplicate attributes) and, with a root <svg>, be single-rooted at <svg> declaring the SVG namespace and a version; non-trivial = every case",
     );
     for i in 0..nd {
-        let case = gen_case(&mut rng, i);
+        let mut case = gen_case(&mut rng, i);
         let cfg = random_cfg(&mut rng);
+        // one document in twelve holds a raw control character XML cannot contain (the form feed counts as white
+        // space for Rust, not for XML), in character data or in an attribute value: it must be refused, never written
+        if case.has_root && rng.chance(1, 12) {
+            let c = *rng.pick(&["\u{c}", "\u{c}", "\u{1}", "\u{b}", "\u{1f}", "\u{8}"]);
+            let extra = match rng.below(3) { 0 => format!("<text xy=\"1 1\">x{c}y</text>"), 1 => format!("<rect wh=\"2\" data-c=\"p{c}q\"/>"), _ => format!("<desc>{c}</desc><!-- {c} -->") };
+            if let Some(i) = case.doc.rfind("</svg>") { case.doc.insert_str(i, &extra); st.tally("raw-control-character"); }
+        }
         let doc = &case.doc;
         st.case(doc, true, || json!({"document": short(doc), "config": cfg_desc(&cfg)}));
         st.tally(if case.has_root { "root=svg" } else { "fragment" });
